@@ -33,7 +33,7 @@ void run_sorter(const SorterSpec &s, RunResult &res, SorterOutcome &out)
 	if (s.max_mem) mtbl_sorter_options_set_max_memory(so, s.max_mem);
 	else if (s.set_zero) mtbl_sorter_options_set_max_memory(so, 0);
 	mtbl_sorter_options_set_temp_dir(so, s.tmpdir.c_str());
-	mtbl_sorter_options_set_merge_func(so, merge_union_cb, s.stateless_merge ? stateless_merge_ctx(s.mfunc) : (void *)&mc);
+	mtbl_sorter_options_set_merge_func(so, s.fail_on_F ? merge_failF_cb : merge_union_cb, s.stateless_merge ? stateless_merge_ctx(s.mfunc) : (void *)&mc);
 	if (s.pool) mtbl_sorter_options_set_threadpool(so, s.pool);
 	mtbl_sorter *sorter = mtbl_sorter_init(so);
 	mtbl_sorter_options_destroy(&so);
@@ -51,7 +51,7 @@ void run_sorter(const SorterSpec &s, RunResult &res, SorterOutcome &out)
 		mtbl_res r = mtbl_sorter_add(sorter, (const uint8_t *)kv.first.data(), kv.first.size(), (const uint8_t *)kv.second.data(), kv.second.size());
 		if (r != mtbl_res_success) {
 			out.add_failed = true;
-			if (!(s.mergefail && mc.fail_fired)) res.fail("MODEL", "SORTER-add-refused", "mtbl_sorter_add #" + std::to_string(i) + " failed before iteration started");
+			if (!(s.mergefail && mc.fail_fired) && !s.fail_on_F) res.fail("MODEL", "SORTER-add-refused", "mtbl_sorter_add #" + std::to_string(i) + " failed before iteration started");
 			break;
 		}
 		auto f = model.find(kv.first);
